@@ -19,20 +19,29 @@ def run(res, tier, lean, prop="C01", proof_breaks=(), build_log=""):
                        "recursive and non-recursive, normal and full emitters, str and bytes roots; each history replayed in "
                        "WD.Pipe and judged; non-trivial = the history delivered at least one event")
     hists = [(i, o) for i, o in pipe.FIXED]
+    outside = prop == "C07"     # C07 quantifies over operations on entries that have left the tree, too
+    if outside:
+        hists += [
+            ([("mkdir", "W/d")], [("rename", "W/d", "O/x"), ("mkdir", "W/d"), ("rmdir", "W/d"), ("rmdir", "O/x"), ("create", "W/a")]),
+            ([("mkdir", "W/d"), ("mkdir", "W/d/dd")], [("rename", "W/d", "O/x"), ("create", "O/x/a"), ("rmtree", "O/x"), ("mkdir", "W/d")]),
+            ([("mkdir", "W/d")], [("rename", "W/d", "O/x"), ("rename", "O/x", "W/dd"), ("create", "W/dd/a"), ("rmdir", "W/dd")]),
+            ([], [("mkdir", "W/d"), ("create", "W/d/a"), ("rmtree", "W/d"), ("mkdir", "W/d"), ("create", "W/d/a"), ("unlink", "W/d/a"),
+                  ("rmdir", "W/d"), ("rmdir", "W")]),
+        ]
     n = 60 if thorough else 14
     for _ in range(n):
         init = pipe.gen_history(r, r.randint(2, 8)) if r.random() < 0.6 else []
         t0 = {"W": "d", "O": "d"}
         # the generator's picture of the tree after the initial operations
         t1 = pipe.tree_after(t0, init)
-        hists.append((init, pipe.gen_history(r, r.randint(6, 16), tree=t1)))
+        hists.append((init, pipe.gen_history(r, r.randint(6, 16), tree=t1, allow_outside_ops=outside)))
     lines, impl, meta = [], [], []
     for init, ops in hists:
         for recursive in (True, False):
             full = r.random() < 0.25
             as_bytes = r.random() < 0.25
             result = pipe.run_history(init, ops, recursive=recursive, full=full, as_bytes=as_bytes, probes=prop in ("C02", "C07"))
-            if result["timeout"]:
+            if result["timeout"] and not result["thread_errors"]:
                 raise RuntimeError("drain timeout (machine stalled?)")
             lines.append(pipe.request(result["init"], result["applied"], recursive, full))
             impl.append(result["line"])
@@ -48,7 +57,9 @@ def run(res, tier, lean, prop="C01", proof_breaks=(), build_log=""):
             res.nontrivial(line)
         m, flags = pipe.strip_flags(o)
         v = None
-        if prop == "C01":
+        if result["timeout"] and result["thread_errors"]:
+            v = f"a library thread died of an unhandled error and the stream stopped: {result['thread_errors']}"
+        elif prop == "C01":
             v = pipe.replay_judge(result, recursive)
         elif prop == "C02":
             for d, depth, seen in result["probes"]:
